@@ -900,6 +900,8 @@ def judge_model(m, want_ort=True, custom_keys=()):
         return [tuple(b) for b in bad]
     except ISO.Aborted:
         pass
+    except ISO.Stalled:
+        return []  # no verdict on a stalled judge (counted in lib_isolate.STATS)
     except ISO.RemoteError as e:  # the judging code itself failed: reported, not hidden
         return [("judge-error", str(e)[:300])]
     bad = []
@@ -908,6 +910,8 @@ def judge_model(m, want_ort=True, custom_keys=()):
             bad += [tuple(b) for b in ISO.call(fn, m)]
         except ISO.Aborted as e:
             bad.append(("checker-aborted", f"{kind}: {e}"))
+        except ISO.Stalled:
+            pass
         except ISO.RemoteError as e:
             bad.append(("judge-error", str(e)[:300]))
     try:
@@ -922,11 +926,11 @@ def judge_model(m, want_ort=True, custom_keys=()):
             bad += [tuple(b) for b in ob]
         except ISO.Aborted as e:
             bad.append(("runtime-aborted", f"onnxruntime session: {e}"))
+        except ISO.Stalled:
+            pass
         except ISO.RemoteError as e:
             bad.append(("judge-error", str(e)[:300]))
-    if not any(k in ("checker-aborted", "runtime-aborted") for k, _ in bad):
-        bad.append(("runtime-aborted", "the judges died together but not one by one"))
-    return bad
+    return bad  # (judges that died together but not one by one: no verdict)
 
 
 ORT_UNSUPPORTED: list = []
